@@ -151,15 +151,15 @@ class odict(dict):
         for a in pa:
             if hasattr(a,'get'): #positional arg is dictionary
                 for k in a:
-                    if k not in self._keys:
+                    if k not in self:
                         self[k] = a[k]
             else: #positional arg is sequence of duples (k,v)
                 for k, v in a:
-                    if k not in self._keys:
+                    if k not in self:
                         self[k] = v
 
         for k in kwa:
-            if k not in self._keys:
+            if k not in self:
                 self[k] = kwa[k]
 
     def sift(self, fields=None):
@@ -383,6 +383,34 @@ class lodict(odict):
             d[k.lower()] = kwa[k]
 
         super(lodict, self).update(d)
+
+    def pop(self, key, *default):
+        """
+        Make key lowercase then pop
+        """
+        return super(lodict, self).pop(key.lower(), *default)
+
+    def insert(self, index, key, val):
+        """
+        Make key lowercase then insert
+        """
+        super(lodict, self).insert(index, key.lower(), val)
+
+    def sift(self, fields=None):
+        """
+        Make field names lowercase then sift
+        """
+        if fields is not None:
+            fields = [key.lower() for key in fields]
+        return super(lodict, self).sift(fields)
+
+    def reorder(self, other):
+        """
+        Make keys of other lowercase then reorder
+        """
+        if not isinstance(other, odict):
+            raise ValueError('other must be an odict')
+        super(lodict, self).reorder(lodict(other))
 
 
 
